@@ -38,6 +38,7 @@ PlainEvent(e) ==
      \/ /\ e.call = "get_output"  /\ GetOutput(e.obj) /\ Common(e) /\ Seen(e)
         /\ obs'.recT = e.recT /\ obs'.recN = e.recN /\ e.dataok
      \/ /\ e.call = "finalize"    /\ Finalize(e.obj) /\ Common(e)
+     \/ /\ e.call = "caller_edits" /\ CallerEdits(e.obj) /\ Common(e) /\ Seen(e)
 
 TraceInit == DInit /\ tid \in 1..Len(Traces) /\ l = 1
 TraceNext ==
